@@ -106,14 +106,19 @@ impl ClientVisibility {
 
     /// Removes a despawned entity tracked by this client.
     pub(super) fn remove_despawned(&mut self, entity: Entity) {
-        let removed = match &mut self.list {
-            VisibilityList::Blacklist(list) => list.remove(&entity).is_some(),
-            VisibilityList::Whitelist(list) => list.remove(&entity).is_some(),
-        };
-
-        if removed {
-            self.added.remove(&entity);
-            self.removed.remove(&entity);
+        // Entities that lost visibility in this tick stay in the lost set
+        // to notify clients that have seen them via `Self::drain_lost`.
+        match &mut self.list {
+            VisibilityList::Blacklist(list) => {
+                if list.remove(&entity).is_some() {
+                    self.removed.remove(&entity);
+                }
+            }
+            VisibilityList::Whitelist(list) => {
+                if list.remove(&entity).is_some() {
+                    self.added.remove(&entity);
+                }
+            }
         }
     }
 
